@@ -1,8 +1,8 @@
 HOOKS = {
     "guard": "--cfg cfavml_verif",
-    "enable": "RUSTFLAGS='--cfg cfavml_verif' when building the harness crates that path-depend on /repo/cfavml (dispatch feature-mask override); no hook commit exists yet",
+    "enable": "RUSTFLAGS='--cfg cfavml_verif' when building the harness crates that path-depend on /repo/cfavml (dispatch feature-mask override); hook commit 480ee7e in /repo (cfavml/src/dispatch.rs: pub mod verif_hook + one masked() test at the head of each is_*_available)",
     "baseline_off_cmd": "cd /repo && cargo test --workspace --no-fail-fast --offline",
-    "source_commits": [],
+    "source_commits": ["480ee7e"],
     "add_only": True,
 }
 NOTES = ("All checks: python3 run.py <ID> --tier quick|thorough. Each re-runs tools/translate.py against /repo's working tree, "
@@ -20,5 +20,15 @@ CHECKS = {
         "technique": "Coq proof by reflection over translator-generated tables",
     },
 }
+CHECKS["C01"] = {
+    "text": "Coq theorem over the assert lists regenerated from the 8 safe macros on every run: whenever the generated assert_eq! list passes on (len a, len b, len result, DIMS), every equality the selected routine relies on holds (entailment checker proved sound for all lengths), so a mismatch always panics; composed with C07's kernel bounds theorem and C09's slot theorem. Correspondence D runs all 380 safe routines under feature masks on guard-paged slices with every kind of mismatch (stable release/debug, nightly) and applies the specification to the implementation's output.",
+    "note": "Trusted: Coq kernel + vm_compute; tools/translate.py; Model/Safe.v + kernel model tied by correspondences A/C/D; harness (mmap guard pages, catch_unwind); the dispatch hook. Placement relative to unmapped memory is observed, not proved. No axioms.",
+    "technique": "Coq proof (reflection + soundness lemma) over translator-generated assert lists; differential correspondence under dispatch masks",
+}
+CHECKS["C07"] = {
+    "text": "Coq theorem kernels_in_bounds: for all 19 kernels, every element type, every register geometry with lanes >= 1 whose operations preserve the lane count, every dims and input, the kernel model terminates, never accesses outside its slices, never writes an input or reads the result (Hoare rules for the state/error monad, exact loop trip counts, partition of [0,dims)). The hand-written kernel model is tied to op_*.rs by correspondence A: a symbolic run of the REAL generic kernels (public traits, symbolic element + L-lane register) must yield identical expression trees, result cells and register event logs for L in {1,2,3,4,5,8,16(,32,64)} and every length residue.",
+    "note": "Trusted: Coq kernel; hand model Model/Kernels.v, SimdApi.v, Base/Mem.v to the extent correspondence A exercises them; harness/cfh sym mode; OCaml driver; extraction with ExtrOcamlBasic only. Index arithmetic on nat (slices <= isize::MAX bytes). That compiled code touches only what the source says is observed with guard pages (C01/C02 runs), not proved. No axioms.",
+    "technique": "Coq proof by loop invariants over an executable kernel model; symbolic-execution correspondence with the real generic kernels",
+}
 NOT_APPLICABLE = {p: "check under construction in this session (see DESIGN.md §6 order of work); not yet claimed"
-                  for p in ["C01", "C02", "C03", "C04", "C05", "C06", "C07", "C08", "C10", "C12", "C13", "C14", "C15", "C16", "C17", "C18"]}
+                  for p in ["C02", "C03", "C04", "C05", "C06", "C08", "C10", "C12", "C13", "C14", "C15", "C16", "C17", "C18"]}
